@@ -509,6 +509,20 @@ func gen(rng *vh.Rng, n int, emit func(id string, sel int, in []int64, kind stri
 		{kUpdate, ten(5, 3, 4000)}, {kUpdate, ten(5, 3, 5000)}, st(4, 3), {kUpdate, ten(4, 3, 5000)}, st(4, 1),
 		{kUpdate, ten(4, 3, 7000)}}},
 		"fixed-closed-sibling", "fixed/closed-sibling-sum", emit)
+	// deletion of a queue with allocated pods: admitted with the default flag (known finding), refused with the flag on
+	alloc := func(id, n int64) request { return request{kEnv, qspec{name: id, alloc: n, state: -1}} }
+	finish(history{config{5, 0, 1}, []qspec{root, def}, []request{mk(3, 1), alloc(3, 3), {kDelete, qspec{name: 3}}}},
+		"fixed-delete-allocated-flag-off", "fixed/delete-allocated-pods", emit)
+	finish(history{config{5, 1, 1}, []qspec{root, def}, []request{mk(3, 1), alloc(3, 3), {kDelete, qspec{name: 3}}, alloc(3, 0), {kDelete, qspec{name: 3}}}},
+		"fixed-delete-allocated-flag-on", "fixed/delete-allocated-pods", emit)
+	// root is carved out of the sums and of the capability bound by the code: explicit amounts on root are
+	// exceeded by top-level queues, and (root protection off) lowered below them
+	k1 := qspec{name: 1, cap: cpu(1000), des: cpu(1000), guar: cpu(1000)}
+	finish(history{config{5, 0, 0}, []qspec{k1, def}, []request{
+		{kCreate, qspec{name: 3, parent: 1, cap: cpu(5000), des: cpu(5000), guar: cpu(5000)}},
+		{kCreate, qspec{name: 4, parent: 0, cap: cpu(5000), des: cpu(5000), guar: cpu(5000)}},
+		{kUpdate, qspec{name: 1, cap: cpu(500), des: cpu(500), guar: cpu(500)}}}},
+		"fixed-root-carve-out", "fixed/root-carve-out", emit)
 	// the root queue itself given a parent
 	finish(history{config{5, 0, 1}, []qspec{root, def}, []request{mk(3, 1), mk(4, 3), mv(1, 4), mv(1, 1), mk(5, 4), mv(3, 5)}},
 		"fixed-root-reparent", "fixed/root-given-a-parent", emit)
